@@ -25,7 +25,7 @@ def jobs(tier):
     import ctparse.ctparse  # noqa
     CC = sys.modules["ctparse.ctparse"]
     out.append(Job("C05.NOTATIONS-API", "vq.harness.h_api2", "ob_date", timeout=3600, path_timeout=600, env={"VQ_WIDE": "0"},
-                   bounds="7 days x 12 months x 6 years (1990..2029) with clock 09:05, plus 12.03.<year> with 8x4 clock times; every notation (numeric ./-//, dd.mm.yy, day + month name + year EN/DE) "
+                   bounds="4 days x 3 months x 3 years (1990/2000/2029) with clock 09:30, plus 12.03.2000 with 6 more clock times; every notation (numeric ./-//, dd.mm.yy, day + month name + year EN/DE) "
                           "x 3 reference times resolves to that date (and time); stand-alone years readable as hh:mm are excluded for month-name notations",
                    functions=[fn_id(CC.ctparse)], stubs=["parser untraced; pool indices symbolic (solver covers every combination)"], site="ctparse"))
     return out
